@@ -264,7 +264,16 @@ def check_case(ctx, case, record=True):
     pool = {}
     scopes = [tuple(materialize(v, pool) for v in sc) for sc in scopes_desc]
     unord, mixed = unorderable(scopes_desc)
-    renders_between = any(op[0] == "render" for op in case["ops"][:-1]) or case["driver"] == "thread"
+    # The "direct" driver renders at chosen points through the observers' internal render step; if an
+    # implementation no longer has it, the same history is driven through the real update thread instead.
+    probe = make_observer(case["observer"], case["intervals"], [])
+    driver = case["driver"]
+    if driver == "direct" and not all(hasattr(probe, a) for a in ("_do_render", "_lock", "_output")):
+        driver = "thread"
+        if record:
+            ctx.count("direct_driver_unavailable:driven_through_update_thread")
+    del probe
+    renders_between = any(op[0] == "render" for op in case["ops"][:-1]) or driver == "thread"
     if record:
         ctx.case(case, len(scopes) >= 2 and (unord or mixed) and renders_between,
                  [f"observer:{case['observer']}", f"driver:{case['driver']}"] + (["unorderable"] if unord else [])
@@ -281,7 +290,7 @@ def check_case(ctx, case, record=True):
         if k == "tick":
             clock.now += op[1]
         elif k == "render":
-            if case["driver"] == "direct":
+            if driver == "direct":
                 with obs._lock:
                     out = obs._do_render()
                 if out is not None:
@@ -315,13 +324,13 @@ def check_case(ctx, case, record=True):
     def body():
         obs = make_observer(case["observer"], case["intervals"], sink)
         obs_box["obs"] = obs
-        if case["driver"] == "thread":
+        if driver == "thread":
             obs.__enter__()
         try:
             for op in case["ops"]:
                 emit(obs, op)
         finally:
-            if case["driver"] == "thread":
+            if driver == "thread":
                 obs.__exit__(None, None, None)
             else:
                 with obs._lock:
@@ -334,7 +343,7 @@ def check_case(ctx, case, record=True):
     spo.time = clock
     try:
         with contextlib.redirect_stdout(stdout):
-            if case["driver"] == "thread":
+            if driver == "thread":
                 def thunk():
                     try:
                         return body()
@@ -368,10 +377,17 @@ def check_case(ctx, case, record=True):
         final[(section, sc)] = (c, f, r, t)
     # elapsed attribution
     total_elapsed = 0.0
-    for section, mapping in obs._state.section_scope_mapping.items():
-        for sc, st_ in mapping.items():
-            total_elapsed += st_.weighted_elapsed
-    if not math.isclose(total_elapsed, model.busy_time, rel_tol=1e-9, abs_tol=1e-6):
+    try:
+        for section, mapping in obs._state.section_scope_mapping.items():
+            for sc, st_ in mapping.items():
+                total_elapsed += st_.weighted_elapsed
+    except AttributeError:
+        # the per-scope elapsed times are read from the observer's state object; an implementation that keeps
+        # them elsewhere is not judged on this clause (counted, so the evidence shows it)
+        total_elapsed = None
+        if record:
+            ctx.count("elapsed_oracle_unavailable")
+    if total_elapsed is not None and not math.isclose(total_elapsed, model.busy_time, rel_tol=1e-9, abs_tol=1e-6):
         ctx.violation(case, f"elapsed time attributed to scopes sums to {total_elapsed}, but calls were running for {model.busy_time} s of fake time")
     if not final:
         return
